@@ -127,6 +127,39 @@ impl<'de> serde::Deserialize<'de> for LocaleServerFnOutputClient {
     }
 }
 
+/// Lowercase hexadecimal digit of a value below 16.
+#[cfg(all(feature = "dynamic_load", any(feature = "ssr", feature = "hydrate")))]
+fn hex_digit(n: u8) -> char {
+    match n {
+        0..=9 => (b'0' + n) as char,
+        _ => (b'a' + (n - 10)) as char,
+    }
+}
+
+/// Append `s` to `buf` as a JavaScript string literal that can be embedded in a `<script>` element.
+#[cfg(all(feature = "dynamic_load", any(feature = "ssr", feature = "hydrate")))]
+fn push_js_string(buf: &mut String, s: &str) {
+    buf.push('"');
+    for c in s.chars() {
+        match c {
+            '"' => buf.push_str("\\\""),
+            '\\' => buf.push_str("\\\\"),
+            // never let the text close the script element or open a comment
+            '<' => buf.push_str("\\u003C"),
+            // line terminators are not allowed in a string literal
+            '\u{2028}' => buf.push_str("\\u2028"),
+            '\u{2029}' => buf.push_str("\\u2029"),
+            c if (c as u32) < 0x20 => {
+                buf.push_str("\\u00");
+                buf.push(hex_digit((c as u32 / 16) as u8));
+                buf.push(hex_digit((c as u32 % 16) as u8));
+            }
+            c => buf.push(c),
+        }
+    }
+    buf.push('"');
+}
+
 #[cfg(all(feature = "dynamic_load", feature = "ssr"))]
 mod register {
     use super::*;
@@ -178,9 +211,7 @@ mod register {
                     if !std::mem::replace(&mut first, false) {
                         buff.push(',');
                     }
-                    buff.push('\"');
-                    buff.push_str(value);
-                    buff.push('\"');
+                    push_js_string(&mut buff, value);
                 }
                 buff.push_str("]}");
             }
@@ -235,9 +266,7 @@ pub fn init_translations<L: Locale>() -> impl leptos::IntoView {
             if !std::mem::replace(&mut first, false) {
                 buff.push(',');
             }
-            buff.push('\"');
-            buff.push_str(value);
-            buff.push('\"');
+            push_js_string(&mut buff, value);
         }
         buff.push_str("]}");
         L::init_translations(locale, id, values);
